@@ -65,6 +65,11 @@ where
             None
         }
     }
+    // verification hook H2: read-only view of pending reassembly state
+    #[cfg(mengjiangproject_redproxy_rs_verif)]
+    pub fn verif_pending(&self) -> (usize, usize) {
+        (self.queue.len(), self.timer.len())
+    }
     pub fn timer(&mut self) {
         let now = Instant::now();
         for _ in 0..self.timer.partition_point(|x| x.1 < now) {
